@@ -185,6 +185,7 @@ SUMMARIES = {
     "std::ops::Try::branch": lambda t: (
         [((CONT, F0), 0, (SOME, F0))] if (t.get("arg_tys") or [""])[0].startswith("std::option::Option")
         else [((CONT, F0), 0, (OK, F0)), ((BRK, F0, ERR, F0), 0, (ERR, F0))]),
+    "std::ops::FromResidual::from_residual": [((ERR, F0), 0, (ERR, F0)), ((OK,), 0, None), ((SOME,), 0, None)],
     "std::option::Option::unwrap": [((), 0, (SOME, F0))],
     "std::option::Option::expect": [((), 0, (SOME, F0))],
     "std::option::Option::unwrap_or": [((), 0, (SOME, F0)), ((), 1, ())],
@@ -514,11 +515,15 @@ class Body:
                 continue
             if path[:len(rp)] == rp:
                 matched = True
+                if ap is None:      # this part of the result never carries a value
+                    continue
                 out += self.trace(t["args"][ai], ap + path[len(rp):], opaque, textra, follow_mut, seen,
                                   via + (short(n),))
             elif rp[:len(path)] == path:
                 # whole-value query of something the summary only describes piecewise
                 matched = True
+                if ap is None:
+                    continue
                 out += self.trace(t["args"][ai], (), opaque, textra, follow_mut, seen, via + (short(n),))
         if not matched:
             return [Leaf("call", (bb, t), path, via)]
@@ -539,16 +544,17 @@ class Body:
             if src[0] == "discr":
                 rv = src[1]
                 names = {v: nme for v, nme in rv.get("variants", [])}
+                allnames = [nme for _v, nme in rv.get("variants", [])]
                 if lab[0] == "sw":
                     nm = names.get(lab[1], str(lab[1]))
-                    out.append((j, ("variant", rv["place"], nm, rv.get("pty"))))
+                    out.append((j, ("variant", rv["place"], nm, rv.get("pty"), allnames)))
                 else:
                     taken = {v for v, _ in arms}
                     rest = [nme for v, nme in rv.get("variants", []) if v not in taken]
                     if len(rest) == 1:
-                        out.append((j, ("variant", rv["place"], rest[0], rv.get("pty"))))
+                        out.append((j, ("variant", rv["place"], rest[0], rv.get("pty"), allnames)))
                     else:
-                        out.append((j, ("notvariant", rv["place"], [names.get(v, str(v)) for v in taken], rv.get("pty"))))
+                        out.append((j, ("notvariant", rv["place"], [names.get(v, str(v)) for v in taken], rv.get("pty"), allnames)))
             elif src[0] == "bool":
                 neg, node = src[1], src[2]
                 if lab[0] == "sw":
